@@ -697,7 +697,9 @@ example (S : List (Raire.Assertion Nat Nat)) (hS : Sufficient [0, 1, 2] 1 S)
 
 /-- ... and the bounded event really happens: although on the manual records candidate 0 beats the reported winner 1,
 over the 120 orders of the five cards the audit is reported complete with probability 1/10 (kernel-computed) — below
-the bound 9/10 -/
+the bound 9/10.  The real library on the same five cards (`make_assertions_from_json`, `set_all_margins_from_cvrs`,
+`mvrs_to_data`, `set_p_values`, `summarize_status`; tools/example_irv_comparison_full.py) gives the same margins, test
+bounds and data and completes in 12 of the 120 orders. -/
 theorem example_irv_comparison_full_exact : hitG (auditCompleteOpt dataV TV sV) 5 cardsV [] = 1/10 := by
   decide +kernel
 
